@@ -104,7 +104,10 @@ var verifC07Args = []string{"i", "i8", "f64", "str", "si", "mi", "pi", "ci", "rc
 	"nil", "1", "2.5", "'c'", `"s"`, "300", "Id", "Id[int]", "Zero[int8]()", "func(x int) int { return x }", "MkList(i8)"}
 
 // a subset for the second argument of binary functions and for variadic positions
-var verifC07Args2 = []string{"i", "i8", "f64", "str", "1", "2.5", "300", "fii", "fis", "Id", "Id[int]", "func(x int) int { return x }", "si", "nil", "e"}
+var verifC07Args2 = []string{"i", "i8", "str", "1", "2.5", "fii", "fis", "Id", "f64", "300", "Id[int]", "func(x int) int { return x }", "si", "nil", "e"}
+
+// variadic positions
+var verifC07Args3 = []string{"i", "i8", "f64", "1", "2.5", "si"}
 
 // verifC07Check type-checks src and returns the instantiations recorded inside function fn
 // ("Name[targs] type" per generic identifier, in source order) and the type of the expression
@@ -165,13 +168,17 @@ func VerifH_C07_calls() {
 	case f.arity == -1:
 		n := vp.Choose("nargs", 4)
 		for k := 0; k < n; k++ {
-			pool := verifC07Args2
+			pool := verifC07Args3
 			args = append(args, pool[vp.Choose("arg"+string(rune('0'+k)), len(pool))])
 		}
 	case f.arity >= 1:
 		args = append(args, verifC07Args[vp.Choose("arg0", len(verifC07Args))])
 		if f.arity == 2 {
-			args = append(args, verifC07Args2[vp.Choose("arg1", len(verifC07Args2))])
+			pool := verifC07Args2
+			if !vp.Thorough() {
+				pool = pool[:8]
+			}
+			args = append(args, pool[vp.Choose("arg1", len(pool))])
 		}
 	}
 	ell := false
